@@ -7,7 +7,7 @@ from typing import Any, Iterable, List, Optional, Tuple
 from ..engine.flow import Automaton, MayRaise, Runner, State, violation
 from ..engine.match import Spec, loop_doms, residual
 from ..engine.report import Check
-from ..engine.terms import C, Term, implies, mentions, mk_not, show
+from ..engine.terms import C, Term, implies, mentions, mk_not, show, subterms
 from ..engine.effects import collect_mutations, event_mutation
 from ..engine.walker import MUTATORS, Event, swallowed_by, try_inside_loops
 from .common import CONS, functions_mentioning, short
@@ -89,6 +89,10 @@ class RelayAutomaton(Automaton):
         return self.classify(ev)
 
     def may_raise(self, ev: Event) -> bool:
+        if ev.kind == "store" and ev.value is not None and any(c.prov == "handler" for c in ev.pc):
+            # inside the handler that refuses a block, before the clean-up: `d[k] += 1` / `d[k] = f(d[k'])` reads a key that may be absent
+            if any(x[0] == "s" and x[1][0] != "new" and x[2][0] != "c" for x in subterms(ev.value)):
+                return True
         if ev.kind != "call":
             return False
         # a rejection is an exception caused by the delivered data
